@@ -72,6 +72,9 @@ class Expr(core.Expr):
 
     _is_length_preserving = False
     _filter_passthrough = False
+    # set by operators that let filters pass but hand on the rows in another
+    # order (shuffle, sort, set_index)
+    _filter_passthrough_reorders_rows = False
 
     def _filter_passthrough_available(self, parent, dependents):
         return self._filter_passthrough and is_filter_pushdown_available(
@@ -3754,6 +3757,22 @@ def is_filter_pushdown_available(expr, parent, dependents, allow_reduction=True)
         # expr is (part of) the predicate of this filter, not the frame that
         # is filtered: there is nothing to move below it
         return False
+    if expr._filter_passthrough_reorders_rows:
+        # Below expr the rows are in another order: a predicate that depends
+        # on their order (cumulative, shifted, rolling ... values of expr)
+        # would select other rows. Row-wise operations and reductions don't.
+        from dask_expr._reductions import Reduction
+
+        for e in parent.predicate.walk():
+            if (
+                isinstance(e, Expr)
+                and not isinstance(
+                    e, (Elemwise, ApplyConcatApply, TreeReduce, ShuffleReduce, Reduction)
+                )
+                and e._name != expr._name
+                and any(x._name == expr._name for x in e.walk())
+            ):
+                return False
     parents = [x() for x in dependents[expr._name] if x() is not None]
     filters = {e._name for e in parents if isinstance(e, Filter)}
     if len(filters) != 1:
